@@ -229,6 +229,11 @@ observe(int rv, const char *extra)
 				nng_msg_free(aio_msg[k]);
 			} else if (aio_kind[k] == 1 && aio_rv[k] != 0) {
 				printf(aio_msg[k] != NULL ? ":kept" : ":LOST");
+				if (aio_msg[k] != NULL && getenv("NNGV_KEPT_DETAIL") != NULL) {
+					// the message a refused send hands back, as the caller finds it
+					putchar('=');
+					print_msg(aio_msg[k]);
+				}
 				if (aio_msg[k] != NULL) nng_msg_free(aio_msg[k]);
 			}
 			aio_msg[k]  = NULL;
@@ -447,6 +452,12 @@ main(void)
 				rv = isc ? nng_ctx_sendmsg(ctxs[t], m, NNG_FLAG_NONBLOCK)
 				         : nng_sendmsg(socks[t], m, NNG_FLAG_NONBLOCK);
 				if (rv != 0) {
+					if (getenv("NNGV_KEPT_DETAIL") != NULL) {
+						// the message a refused send hands back, as the caller finds it
+						printf("kept ");
+						print_msg(m);
+						printf("\n");
+					}
 					nng_msg_free(m);
 				}
 			} else if (aio_kind[ai] != 0) {
@@ -493,6 +504,9 @@ main(void)
 			}
 		} else if (strcmp(op, "cancel") == 0) {
 			nng_aio_cancel(get_aio(IDX(tok[1])));
+		} else if (strcmp(op, "stopaio") == 0) {
+			// nng_aio_stop: every later operation started on this aio is refused (NNG_ESTOPPED) by nni_aio_start
+			nng_aio_stop(get_aio(IDX(tok[1])));
 		} else if (strcmp(op, "aiotmo") == 0) {
 			nng_aio_set_timeout(get_aio(IDX(tok[1])), atoi(tok[2]));
 		} else if (strcmp(op, "setopt") == 0) {
